@@ -237,6 +237,12 @@ def apply_fault(sess, a):
         if entry != 'biogeme' and data is None:
             # expression evaluation always uses up to 4 engine threads: keep the error path single-threaded
             d = db.Database('one', sess.dbs[dbi].data.iloc[[salt % len(sess.dbs[dbi].data)]].reset_index(drop=True))
+        if entry == 'biogeme' and (salt // 64) % 4 == 1 and ast is not base:
+            # the faulty formula is not the likelihood but another entry of the dictionary of formulas (to be simulated)
+            ctx.probe('faulty formula handed over next to a valid likelihood')
+            b = bio.BIOGEME(d, {'log_like': fb.build(base), 'extra': e}, parameters=params())
+            out = b.simulate({n: eb.BETA_VALUES.get(n, 0.1) for n in b.free_beta_names})
+            return float(out['extra'].sum())
         if entry == 'biogeme':
             b = bio.BIOGEME(d, e, parameters=params())
             x = [eb.BETA_VALUES.get(n, 0.1) for n in b.free_beta_names]
@@ -268,9 +274,13 @@ def apply_fault(sess, a):
             return ['in', x_, [1.0, 2.0]]
         if cw == 2:
             return ['and', ['>', x_, ['num', 0.5]], ['num', 1.0]]
+        if cw == 4:
+            # a term of a conditional sum that a constant flag switches off
+            terms_ = [[['num', 0.0], x_], [['num', 1.0], ['var', 'c0']]]
+            return ['condsum', terms_ if salt % 2 else terms_[::-1]]
         return x_
     carrier_name = {0: ', inside a comparison of a comparison', 1: ', as the argument of a set membership',
-                    2: ', inside a logical operator'}.get(cw, '')
+                    2: ', inside a logical operator', 4: ', in a term of a conditional sum switched off by a constant'}.get(cw, '')
     where += carrier_name
     if kind == 'absent_column':
         absent_ = carried(['absent', 'nope'])
